@@ -338,6 +338,11 @@ func BuildGenesis(app *elysapp.ElysApp, w *World) (elysapp.GenesisState, error) 
 		VestNowFactor: math.NewInt(cfg.VestNowFactor), NumMaxVestings: cfg.NumMaxVestings,
 	}}
 	cmg.Params.EnableVestNow = cfg.EnableVestNow
+	// users start with some liquid Eden / EdenB (as if earned as rewards) so that vesting flows are reachable early
+	for _, u := range w.Users {
+		cmg.Commitments = append(cmg.Commitments, &commitmenttypes.Commitments{Creator: u.Addr.String(),
+			Claimed: sdk.NewCoins(sdk.NewInt64Coin(DenomEDEN, 5_000_000_000), sdk.NewInt64Coin(DenomEDENB, 1_000_000_000))})
+	}
 	gs[commitmenttypes.ModuleName] = cdc.MustMarshalJSON(cmg)
 
 	// ---- burner
